@@ -7,9 +7,30 @@ RMW = ("compare_exchange_metadata", "compare_exchange_atomic", "compare_exchange
 PLAIN_STORES = ("store_atomic", "store", "mark", "store_metadata", "set_bit")
 
 
+LOADS = ("load_atomic", "load", "load_metadata")
+
+
+def load_wrappers(F, fn):
+    """Names of crate functions called by `fn` that only read the state: every returned value is computed from an atomic load and
+    the body performs no RMW and no store (e.g. ObjectBarrier::object_is_unlogged). A call to one of them is a fresh read."""
+    out = set()
+    for x in live_calls(fn):
+        g = F.fns.get(x.q) if x.q else None
+        if g is None or g is fn or x.name in LOADS:
+            continue
+        inner = live_calls(g)
+        if any(y.name in RMW or y.name in PLAIN_STORES for y in inner):
+            continue
+        rts = [t for _, t in g.flow.return_trees()]
+        if rts and all(any(tree_calls(t, name=n) for n in LOADS) for t in rts):
+            out.add(x.name)
+    return out
+
+
 def check_cas_claim(ctx, F, fn, rule, what):
     """Judge one claim function. Records instances under `rule`. Returns True if all hold."""
     okall = True
+    load_names = tuple(LOADS) + tuple(sorted(load_wrappers(F, fn)))
     key0 = "%s|%s" % (rule, fn.q)
     rmw = [c for c in live_calls(fn) if c.name in RMW]
     okall &= ctx.judge(len(rmw) == 1, rule, "%s: one atomic read-modify-write" % what, expected="exactly one compare-exchange / fetch-update site", found=str([c.name for c in rmw]),
@@ -53,14 +74,14 @@ def check_cas_claim(ctx, F, fn, rule, what):
         okt = any("is_ok" in show(p.tree) and c.name in show(p.tree) and p.val is True for p in g)
         okall &= ctx.judge(okt, rule, "%s: 'I did it' only after a successful RMW" % what, expected="true returned only under rmw(..).is_ok() == true",
                            found=str(["%s==%s" % (show(p.tree)[:60], p.val) for p in g]), where=where(fn), key=key0 + "|true")
-    loads = [x for x in live_calls(fn) if x.name in ("load_atomic", "load", "load_metadata") and x.args]
+    loads = [x for x in live_calls(fn) if x.name in load_names and x.args]
     for b, t, g in falses:
-        okf = any(tree_calls(p.tree, name="load_atomic") or tree_calls(p.tree, name="load") for p in g) and not any("is_ok" in show(p.tree) and p.val is False for p in g)
+        okf = any(any(tree_calls(p.tree, name=n) for n in load_names) for p in g) and not any("is_ok" in show(p.tree) and p.val is False for p in g)
         okall &= ctx.judge(okf, rule, "%s: 'someone else did it' only from a loaded value" % what, expected="false returned under a comparison of the freshly loaded state (never merely because the CAS failed)",
                            found=str(["%s==%s" % (show(p.tree)[:60], p.val) for p in g]), where=where(fn), key=key0 + "|false")
     old = strip(fn.flow.arg_tree(c, 2)) if len(c.args) > 2 else None
     new = strip(fn.flow.arg_tree(c, 3)) if len(c.args) > 3 else None
-    ok_old = old is not None and (bool(tree_calls(old, name="load_atomic")) or bool(tree_calls(old, name="load")) or (const_arg(old) is not None and const_arg(old) != const_arg(new)))
+    ok_old = old is not None and (any(bool(tree_calls(old, name=n)) for n in load_names) or (const_arg(old) is not None and const_arg(old) != const_arg(new)))
     okall &= ctx.judge(ok_old, rule, "%s: the expected-old value is the loaded state (or a constant different from the new one)" % what, expected="CAS(old = loaded value | const != new)",
                        found="old=%s new=%s" % (show(old)[:80], show(new)[:60]), where=where(fn, c.line), key=key0 + "|old")
     # retry: from the failed-CAS edge, no return without a new load
